@@ -364,3 +364,82 @@ def h_fork(cpn, req_nodes, cores, backup, fake, n_agents):
     check(len(info.node_list) == requested - n_agents, 'offered %s nodes, '
           'requested %s, agent nodes %s', len(info.node_list), requested,
           n_agents)
+
+
+# ------------------------------------------------------------------------------
+# PBSPro: exec_vnode of `qstat -f` (chunks, several chunks per vnode, several
+# vnodes per chunk, wrapped output), fallback to $PBS_NODEFILE
+#
+import radical.pilot.agent.resource_manager.pbspro as m_pbs        # noqa: E402
+
+# chunk layouts over vnodes n1..n3: list of chunks, chunk = list of vnodes
+VLAYOUTS = [[['n1']], [['n1'], ['n2']], [['n1'], ['n1'], ['n2'], ['n2']],
+            [['n1'], ['n2'], ['n1']], [['n1', 'n2']], [['n1', 'n2'], ['n3']],
+            [['n3'], ['n2'], ['n1']], [['n1'], ['n2'], ['n3'], ['n1']]]
+
+
+def _qstat(layout, ncpus, wrap):
+    rhs = '+'.join('(' + '+'.join('%s:ncpus=%d' % (v, ncpus) for v in ch) + ')'
+                   for ch in layout)
+    text = '    exec_vnode = ' + rhs
+    if wrap:
+        # qstat folds long values: continuation lines start with a tab
+        lines, cur = [], text
+        while len(cur) > 40:
+            lines.append(cur[:40]); cur = '\t' + cur[40:]
+        lines.append(cur)
+        text = '\n'.join(lines)
+    return ('Job Id: 1.srv\n    Job_Name = x\n    exec_host = h/0\n%s\n'
+            '    Hold_Types = n\n' % text)
+
+
+class PbsRU(FakeRU):
+    def __init__(self, files, out, ret):
+        FakeRU.__init__(self, files)
+        self.out, self.ret = out, ret
+    def sh_callout(self, cmd, **k):
+        return self.out, 'qstat: error' if self.ret else '', self.ret
+
+
+@obligation(params={'lay': (0, 7), 'ncpus': (1, 2), 'wrap': 'bool',
+                    'req': (1, 3), 'qfail': 'bool', 'n_agents': (0, 1)},
+            partition={'quick': ('lay', 8), 'thorough': ('lay', 8)},
+            timeout={'quick': 300, 'thorough': 600},
+            funcs=FUNCS + ['radical/pilot/agent/resource_manager/pbspro.py:'
+                           'PBSPro.init_from_scratch',
+                           'radical/pilot/agent/resource_manager/pbspro.py:'
+                           'PBSPro._parse_pbspro_vnodes'],
+            bounds='PBSPro: exec_vnode with 8 chunk layouts over 1..3 vnodes '
+                   '(one chunk per vnode, several chunks per vnode adjacent or '
+                   'scattered, several vnodes per chunk), ncpus 1..2 per chunk, '
+                   'qstat output folded or not; qstat failing -> $PBS_NODEFILE '
+                   'fallback (one line per vnode); requested nodes 1..3, 0..1 '
+                   'agent nodes',
+            stubs=['ru.sh_callout(qstat -f) -> generated text'])
+def h_pbspro(lay, ncpus, wrap, req, qfail, n_agents):
+    """PBSPro allocation -> one node entry per distinct vnode"""
+    lay, ncpus, req = conc(lay, 0, 7), conc(ncpus, 1, 2), conc(req, 1, 3)
+    n_agents = conc(n_agents, 0, 1)
+    layout = VLAYOUTS[lay]
+    hosts  = []
+    for ch in layout:
+        for v in ch:
+            if v not in hosts: hosts.append(v)
+    files = {'/nodefile': list(hosts)}
+    env   = {'PBS_JOBID': '1.srv', 'PBS_NODEFILE': '/nodefile'}
+    rm = mk_rm(m_pbs.PBSPro, m_pbs, env, files, ncpus, 0, 1, req, req * ncpus,
+               0, 0, n_agents, False, [], [])
+    m_pbs.ru = m_base.ru = PbsRU(files, _qstat(layout, ncpus, wrap),
+                                 1 if qfail else 0)
+    try:
+        info = rm._init_from_scratch()
+    except (AssertionError, RuntimeError, ValueError, IndexError) as e:
+        trace('refused', repr(e))
+        return
+    reach()
+    trace('layout', layout, 'nodes', [(n['name'], n['index'])
+                                      for n in info.node_list])
+    verify_rm_info(info, hosts, ncpus, 0, [], [], req, n_agents, False)
+    check(len(info.node_list) == min(len(hosts), req) - n_agents,
+          'offered %s nodes: distinct vnodes %s, requested %s, agent nodes %s',
+          len(info.node_list), hosts, req, n_agents)
